@@ -1,6 +1,6 @@
 (** C18 — machine-readable output modes are well-formed and faithful. *)
 From Coq Require Import List ZArith NArith Bool Lia.
-From AG Require Import Str F64 Value Json Expr Ops Pipeline Output Display Json_proofs Ops_proofs Cli Cli_proofs.
+From AG Require Import Str F64 Value Json Expr Ops Pipeline Output Display Json_proofs Ops_proofs Cli Cli_proofs Extremum_proofs.
 Import ListNotations.
 
 (** -o json: the text the serialiser writes for a tree parses back to exactly that tree,
@@ -92,3 +92,8 @@ Print Assumptions C18_cli_empty_format.
 Theorem C18_cli_default : select_mode None None = Some CLegacy.
 Proof. exact default_is_legacy. Qed.
 Print Assumptions C18_cli_default.
+
+(** every duration has a text in the text modes ([0s] for the empty one; fix 5af605b) *)
+Theorem C18_duration_text_nonempty : forall ns, dur_display ns <> [].
+Proof. exact dur_display_nonempty. Qed.
+Print Assumptions C18_duration_text_nonempty.
